@@ -49,6 +49,9 @@ type field struct {
 	// Embed: the field is an embedded struct (or pointer to struct); its name is the type name
 	// on each side (S<id> / T<id>), mapped with goverter:map.
 	Embed   bool
+	// CaseOnly: source and target names differ in case only; matched by goverter:matchIgnoreCase
+	// (no goverter:map line).
+	CaseOnly bool
 	PtrOnT  bool   // source T, target *T
 	MapFunc string // C07: goverter:map F | Func on the enclosing struct's method
 }
@@ -79,6 +82,9 @@ type Spec struct {
 	Aliases bool
 	aliasOf map[string]string
 	aliasOrder []string
+	// MatchIgnoreCase: goverter:matchIgnoreCase on the converter (C07 worlds); some fields are
+	// then spelled differently on the two sides.
+	MatchIgnoreCase bool
 	// UseUnderlying: goverter:useUnderlyingTypeMethods on the converter (C04 worlds; there is
 	// no method it could select, so the generated conversions must stay deep copies).
 	UseUnderlying bool
@@ -140,6 +146,7 @@ func NewSpec(seed uint64, prop string) *Spec {
 	s.maxDepth = 3 + r.IntN(3)
 	s.UseUnderlying = prop == "C04" && r.IntN(3) == 0
 	s.Aliases = r.IntN(3) == 0
+	s.MatchIgnoreCase = prop == "C07" && r.IntN(3) == 0
 	s.Shared = map[int]*node{}
 	s.NConts = map[int]*node{}
 	s.SkipCopyMode = "none"
@@ -363,6 +370,9 @@ func (s *Spec) mkField(i int, n *node, parent *node) *field {
 			}
 		}
 	}
+	if s.MatchIgnoreCase && parent != nil && parent.Kind == "struct" && f.MapFunc == "" && f.TName == f.Name && s.rng.IntN(2) == 0 {
+		f.Name, f.TName, f.CaseOnly = fmt.Sprintf("Fld%d", i), fmt.Sprintf("FLD%d", i), true
+	}
 	return f
 }
 
@@ -375,6 +385,12 @@ func (s *Spec) genStruct(depth int) *node {
 		n.Fields = append(n.Fields, s.mkField(i, s.gen(depth+1, n), n))
 	}
 	s.structsAt = s.structsAt[:len(s.structsAt)-1]
+	if s.Prop == "C04" && s.rng.IntN(6) == 0 {
+		// optional: an interface-typed field (any -> any), which goverter refuses today; should
+		// it ever convert such positions by itself, the dynamic value must not be shared
+		n.Fields = append(n.Fields, &field{Optional: true, Name: fmt.Sprintf("F%d", len(n.Fields)), TName: fmt.Sprintf("F%d", len(n.Fields)), N: &node{Kind: "basic", Basic: "any"}})
+		s.HasOptional = true
+	}
 	if s.Prop == "C04" && s.rng.IntN(8) == 0 {
 		// unsafe.Pointer: a basic type for go/types whose value is a pointer
 		n.Fields = append(n.Fields, &field{Name: fmt.Sprintf("F%d", len(n.Fields)), TName: fmt.Sprintf("F%d", len(n.Fields)), N: &node{Kind: "basic", Basic: "unsafe.Pointer"}})
@@ -887,7 +903,7 @@ func (s *Spec) methods(twin bool) []methodSpec {
 					fn = "Twin" + fn
 				}
 				doc = append(doc, fmt.Sprintf("goverter:map %s %s | %s", f.Name, f.TName, fn))
-			case f.TName != f.Name:
+			case f.TName != f.Name && !f.CaseOnly:
 				doc = append(doc, fmt.Sprintf("goverter:map %s %s", f.Name, f.TName))
 			}
 		}
@@ -981,6 +997,9 @@ func (s *Spec) ConverterSource() string {
 		}
 		if s.UseUnderlying {
 			lines = append(lines, "// goverter:useUnderlyingTypeMethods")
+		}
+		if s.MatchIgnoreCase {
+			lines = append(lines, "// goverter:matchIgnoreCase")
 		}
 		if s.Unexported {
 			lines = append(lines, "// goverter:ignoreUnexported")
@@ -1256,9 +1275,16 @@ func (s *Spec) StripOptional() bool {
 		return false
 	}
 	for _, n := range s.Structs {
+		var getter *field
+		if n.Getter && n.GetterField < len(n.Fields) {
+			getter = n.Fields[n.GetterField]
+		}
 		var keep []*field
 		for _, f := range n.Fields {
 			if !f.Optional {
+				if f == getter {
+					n.GetterField = len(keep)
+				}
 				keep = append(keep, f)
 			}
 		}
